@@ -65,4 +65,24 @@ theorem renorm_sum_one (n : ℕ) (u : ℕ → ℝ) (hS : ∑ g ∈ range n, u g 
     ∑ g ∈ range n, u g / (∑ k ∈ range n, u k) = 1 := by
   rw [← sum_div]; exact div_self hS
 
+/-! ### Prefix sums (numpy `cumsum`), used by the C15 contract: `cum k = ∑ i ∈ range (k+1), a i`. -/
+
+/-- the first prefix sum is the first element -/
+theorem prefix_zero (a : ℕ → ℝ) : ∑ i ∈ range (0 + 1), a i = a 0 := by simp
+
+/-- each prefix sum is the previous one plus the next element -/
+theorem prefix_step (a : ℕ → ℝ) (k : ℕ) :
+    ∑ i ∈ range (k + 1 + 1), a i = (∑ i ∈ range (k + 1), a i) + a (k + 1) :=
+  sum_range_succ a (k + 1)
+
+/-- the last prefix sum of an array of length n ≥ 1 is the sum of the array -/
+theorem prefix_total (a : ℕ → ℝ) (n : ℕ) (hn : 1 ≤ n) :
+    ∑ i ∈ range (n - 1 + 1), a i = ∑ i ∈ range n, a i := by
+  rw [Nat.sub_add_cancel hn]
+
+/-- prefix sums of non-negative elements ascend -/
+theorem prefix_mono (a : ℕ → ℝ) (h : ∀ i, 0 ≤ a i) (k : ℕ) :
+    ∑ i ∈ range (k + 1), a i ≤ ∑ i ∈ range (k + 1 + 1), a i := by
+  rw [sum_range_succ a (k + 1)]; linarith [h (k + 1)]
+
 end PvSigma
